@@ -104,6 +104,18 @@ def main(prop, tier, seed=0, replay=None):
         specs = [{"name": "replay", "build": b, "params": {}} for b in ("J", "B")]
     else:
         specs = mod.shards(tier, seed)
+        if tier == "thorough" and getattr(mod, "SPLIT_KINDS", False):
+            # one shard per geometry kind: same total work, more of the 16 cores used
+            split = []
+            for sp in specs:
+                kinds = (sp.get("params") or {}).get("kinds")
+                if isinstance(kinds, list) and len(kinds) > 1 and not sp.get("prefix"):
+                    for k in kinds:
+                        split.append({**sp, "name": f"{k}-{sp.get('build', 'J')}" + ("-conf" if sp["params"].get("conformance") else ""),
+                                      "params": {**sp["params"], "kinds": [k]}})
+                else:
+                    split.append(sp)
+            specs = split
     outdir = tempfile.mkdtemp(prefix=f"vrun-{prop}-")
     results = []
     try:
